@@ -404,3 +404,16 @@ type outReqActions struct{ r *FakeReq }
 func (a *outReqActions) UsePersistenceOption(name string)                                           { a.r.Persistence = name }
 func (a *outReqActions) UseLinkTargetNodePrototypeChooser(traversal.LinkTargetNodePrototypeChooser) {}
 func (a *outReqActions) MaxLinks(n uint64)                                                          { a.r.MaxLinks = n }
+
+// LiveRequests lists the outgoing requests that were neither finished nor cancelled.
+func (g *FakeGS) LiveRequests() []int {
+	g.mu.Lock()
+	defer g.mu.Unlock()
+	var out []int
+	for _, r := range g.Reqs {
+		if !r.Closed {
+			out = append(out, r.Num)
+		}
+	}
+	return out
+}
